@@ -346,8 +346,31 @@ func famFault(e *env, root *core.Rand, n int) {
 		other := maker(r.Fork(2), 0, 0.1)
 		rec.IDs = []uuid.UUID{mk().ID, other().ID}
 		rec.Create(other(), other(), "create-other")
-		mode := i % 4
+		mode := i % 7
 		switch mode {
+		case 4: // Delete while every batch on the SEARCH partition is refused: the plan's items go, the search
+			// entry stays - Delete must report an ERROR (success is never reported while a trace remains)
+			rec.Create(mk(), mk(), "create")
+			b.Cosmos.SetPoisonSearchPartition(true)
+			err := b.Vault.Delete(ctx, mk().ID)
+			b.Cosmos.SetPoisonSearchPartition(false)
+			rec.Deleted_(mk().ID, err, "delete-search-partition-refused", "(CDeleteStage 1)")
+		case 5: // Create while the search partition is refused (the two-batch gap, through the batch hook)
+			b.Cosmos.SetPoisonSearchPartition(true)
+			err := b.Vault.Create(ctx, mk())
+			b.Cosmos.SetPoisonSearchPartition(false)
+			rec.Created_(mk(), err, "create-search-partition-refused", "(CCreateStage 1)")
+		case 6: // UpdatePlan while its second write (the ReplaceItem batch on the search partition) is refused:
+			// an error, the plan item is patched. (SetPoisonSearchPartition wraps the creator's and the
+			// deleter's client only; the fake's replaceItemErr toggle hits exactly that batch: PatchItem does not look at it.)
+			rec.Create(mk(), mk(), "create")
+			st := storelib.RandState(r.Fork(9))
+			rs := storelib.RandReason(r.Fork(10))
+			up := &workflow.Plan{ID: mk().ID, Name: "mutated-by-update", Descr: "mutated", Reason: rs, State: st, SubmitTime: mk().SubmitTime}
+			b.Cosmos.SetReplaceItemErr(true)
+			err := b.Vault.UpdatePlan(ctx, up)
+			b.Cosmos.SetReplaceItemErr(false)
+			rec.UpdatedPlan_(mk().ID, rs, st, mk().SubmitTime, err, "update-plan-search-partition-refused", "(CUpdatePlanStage 1)")
 		case 3: // duplicate id, DIFFERENT definition, while ReadItem answers a non-404 error: the Exists
 			// pre-check fails, Create must return the error and must not have written anything
 			alt := func() *workflow.Plan {
@@ -587,7 +610,7 @@ func main() {
 	nDup := flag.Int("dup", 12, "cases")
 	nInter := flag.Int("interleave", 18, "cases")
 	nCollide := flag.Int("collide", 10, "cases")
-	nFault := flag.Int("fault", 12, "cases")
+	nFault := flag.Int("fault", 14, "cases")
 	nBig := flag.Int("bigbatch", 2, "big plans for the cosmosdb batch family (three cases each)")
 	nKill := flag.Int("kill", 0, "cases (thorough)")
 	out := flag.String("out", "-", "output file (JSONL)")
